@@ -91,4 +91,7 @@ func runC08(c *Ctx, r *Report) {
 	constIndexCallers(c, r, "C08/const-index-callers", "rare/pkg/expressions/stdlib", "EvalArgInt", 1)
 	r.Floor("C08/const-index-callers", 10, "EvalStageIndexOrDefault and EvalArgInt have 14 call sites")
 	scannerGuard(c, r)
+	// pooled contexts: a context used before it is bound is a nil dereference, one returned twice is
+	// handed to two users and can become its own parent (unbounded recursion)
+	c05PoolTypestate(c, r, "C08")
 }
